@@ -125,8 +125,8 @@ package crlstore
 //@   ensures[C08,C11,C12,C18,C20] handed_out_store_is_consistent_with_its_directory: err == nil ==> typeis(ret, *LevelDbStore) && fsConsistent(as(ret, *LevelDbStore)) && (!temporary ==> as(ret, *LevelDbStore).LevelDBPath == pathJoin2(F.BasePath, identifier)) && (temporary ==> tempName(baseName(as(ret, *LevelDbStore).LevelDBPath)))
 
 //@ func LevelDbStore.Update
-//@   props C08 C11 C18
-//@   ensures[C08,C11,C18] replaced_on_disk: old(typeis(store, *LevelDbStore) && fsConsistent(S) && fsConsistent(as(store, *LevelDbStore)) && S.LevelDBPath == pathJoin2(S.BasePath, S.Identifier) && as(store, *LevelDbStore).LevelDBPath != S.LevelDBPath && as(store, *LevelDbStore).Db != S.Db) && err == nil ==> (forall k string :: $ldbhas[S.Db][k] == old(storeHas(store, k))) && fsConsistent(S)
+//@   props C08 C11 C12 C18
+//@   ensures[C08,C11,C12,C18] replaced_on_disk: old(typeis(store, *LevelDbStore) && fsConsistent(S) && fsConsistent(as(store, *LevelDbStore)) && S.LevelDBPath == pathJoin2(S.BasePath, S.Identifier) && as(store, *LevelDbStore).LevelDBPath != S.LevelDBPath && as(store, *LevelDbStore).Db != S.Db) && err == nil ==> (forall k string :: $ldbhas[S.Db][k] == old(storeHas(store, k))) && fsConsistent(S)
 
 //@ func LevelDbStore.Delete
 //@   props C08 C12 C20
